@@ -1,5 +1,5 @@
 (* Proofs/GcsaP.v — theorems about Model/Gcsa.v for C20. *)
-From CG Require Import Model.Gcsa Spec.GuardDiscipline.
+From CG Require Import Model.Gcsa Spec.GuardDiscipline Proofs.CivilP.
 From Coq Require Import Lia Sorting.Sorted Sorting.Permutation.
 
 Local Open Scope list_scope.
@@ -434,3 +434,300 @@ Proof.
   unfold row_wf in Hwf. rewrite Had in Hwf. destruct Hwf as [Hs He]. rewrite Hk in He. cbn in He.
   rewrite He in R2. injection R2 as R2. rewrite R1, R2, Hs. split; reflexivity.
 Qed.
+
+(* ========================================================================================== *)
+(* 5. removing one instance excludes exactly that occurrence, whatever bounds the rule carries  *)
+
+(* the parts of an RRULE line that are not EXDATE parts: FREQ, INTERVAL, BYDAY, UNTIL, COUNT *)
+Definition rule_toks (l : list tok) : list tok := filter (fun t => negb (is_ex t)) l.
+Definition ex_of_line (l : list tok) : list exd :=
+  flat_map (fun t => match t with TEx e => e | _ => [] end) l.
+(* at most one EXDATE part in the line (the adapter itself never writes more than one) *)
+Definition single_ex (l : list tok) : bool := (length (filter is_ex l) <=? 1)%nat.
+Definition with_line (r : srec) (l : list tok) : srec :=
+  mkR (r_weekly r) (r_interval r) (r_byday r) l (r_extra r).
+
+Lemma filter_idem {A} (p : A -> bool) (l : list A) : filter p (filter p l) = filter p l.
+Proof.
+  induction l as [|x r IH]; simpl; [reflexivity|].
+  destruct (p x) eqn:E; simpl; rewrite ?E, IH; reflexivity.
+Qed.
+
+(* _add_exdate_to_rrule leaves every other part of the line alone, in order: UNTIL and COUNT survive *)
+Lemma add_exdate_rule_toks l x : rule_toks (add_exdate l x) = rule_toks l.
+Proof.
+  unfold add_exdate, parse_exdates, rule_toks.
+  destruct (has_ex l); rewrite filter_app; simpl; rewrite app_nil_r; [|reflexivity].
+  destruct l as [|t r]; [reflexivity|]. simpl.
+  rewrite filter_idem. reflexivity.
+Qed.
+
+Lemma find_tok_rule_toks {A} (f : tok -> option A) (l : list tok) :
+  (forall e, f (TEx e) = None) -> find_tok f l = find_tok f (rule_toks l).
+Proof.
+  intro Hf. induction l as [|t r IH]; [reflexivity|].
+  unfold rule_toks in *. simpl. destruct t; simpl; rewrite ?Hf, IH; reflexivity.
+Qed.
+
+Lemma add_exdate_find_tok {A} (f : tok -> option A) l x :
+  (forall e, f (TEx e) = None) -> find_tok f (add_exdate l x) = find_tok f l.
+Proof.
+  intro Hf. rewrite (find_tok_rule_toks f (add_exdate l x) Hf), (find_tok_rule_toks f l Hf), add_exdate_rule_toks.
+  reflexivity.
+Qed.
+
+Lemma bounds_kept r x :
+  rec_count (with_line r (add_exdate (r_line r) x)) = rec_count r /\
+  rec_until_t (with_line r (add_exdate (r_line r) x)) = rec_until_t r /\
+  rec_until_d (with_line r (add_exdate (r_line r) x)) = rec_until_d r.
+Proof.
+  unfold rec_count, rec_until_t, rec_until_d, with_line. cbn [r_line].
+  repeat split; apply add_exdate_find_tok; reflexivity.
+Qed.
+
+(* the EXDATEs *)
+Lemma single_ex_first l : single_ex l = true -> ex_of_line l = first_ex l.
+Proof.
+  unfold single_ex, ex_of_line. induction l as [|t r IH]; intro H; [reflexivity|].
+  destruct t; simpl in *; try (apply IH; exact H).
+  assert (Hn : filter is_ex r = []).
+  { destruct (filter is_ex r); [reflexivity|]. simpl in H. discriminate. }
+  assert (Hr : flat_map (fun t => match t with TEx e => e | _ => [] end) r = []).
+  { clear -Hn. induction r as [|t r IH]; [reflexivity|].
+    destruct t; simpl in *; try (apply IH; exact Hn); discriminate. }
+  rewrite Hr, app_nil_r. reflexivity.
+Qed.
+
+Lemma ex_of_line_app a b : ex_of_line (a ++ b) = ex_of_line a ++ ex_of_line b.
+Proof. unfold ex_of_line. apply flat_map_app. Qed.
+
+Lemma ex_of_rule_toks l : ex_of_line (rule_toks l) = [].
+Proof.
+  unfold ex_of_line, rule_toks. induction l as [|t r IH]; [reflexivity|].
+  destruct t; simpl; exact IH.
+Qed.
+
+Lemma ex_of_strip l : single_ex l = true -> is_ex (hd TRule l) = false -> ex_of_line (strip_ex l) = [].
+Proof.
+  intros _ Hh. destruct l as [|t r]; [reflexivity|]. simpl in *.
+  change (ex_of_line (t :: rule_toks r) = []).
+  unfold ex_of_line. simpl. fold (ex_of_line (rule_toks r)). rewrite ex_of_rule_toks.
+  destruct t; try reflexivity. discriminate.
+Qed.
+
+Lemma inZ_app s a b : inZ s (a ++ b) = inZ s a || inZ s b.
+Proof. unfold inZ. apply existsb_app. Qed.
+
+Lemma exd_eqb_eq a b : exd_eqb a b = true -> a = b.
+Proof.
+  destruct a as [[[[[y m] d] hh] mm] ss]. destruct b as [[[[[y' m'] d'] hh'] mm'] ss']. unfold exd_eqb.
+  intro H. repeat (apply andb_true_iff in H; destruct H as [H ?]).
+  repeat match goal with E : (_ =? _) = true |- _ => apply Z.eqb_eq in E end. subst. reflexivity.
+Qed.
+
+Lemma in_exd_inZ x l : in_exd x l = true -> inZ (parse_exd x) (map parse_exd l) = true.
+Proof.
+  unfold in_exd, inZ. induction l as [|y r IH]; simpl; intro H; [discriminate|].
+  apply orb_true_iff in H. apply orb_true_iff. destruct H as [H|H].
+  - left. apply exd_eqb_eq in H. subst. apply Z.eqb_refl.
+  - right. apply IH. exact H.
+Qed.
+
+(* what the rewritten line excludes: what the line excluded before, and the new instant *)
+Lemma add_exdate_excludes l x s :
+  single_ex l = true -> is_ex (hd TRule l) = false ->
+  inZ s (map parse_exd (ex_of_line (add_exdate l x))) =
+  inZ s (map parse_exd (ex_of_line l)) || (s =? parse_exd x).
+Proof.
+  intros H1 Hh. unfold add_exdate, parse_exdates.
+  destruct (has_ex l) eqn:Hex.
+  - rewrite ex_of_line_app, (ex_of_strip l H1 Hh), app_nil_l, (single_ex_first l H1).
+    unfold ex_of_line at 1. simpl. rewrite app_nil_r.
+    destruct (in_exd x (first_ex l)) eqn:Hin.
+    + destruct (Z.eqb_spec s (parse_exd x)) as [->|_]; [|rewrite orb_false_r; reflexivity].
+      rewrite (in_exd_inZ _ _ Hin). reflexivity.
+    + rewrite map_app, inZ_app. simpl. unfold inZ at 2. simpl. rewrite orb_false_r. reflexivity.
+  - rewrite ex_of_line_app, map_app, inZ_app. unfold ex_of_line at 2. simpl.
+    unfold inZ at 2. simpl. rewrite orb_false_r. reflexivity.
+Qed.
+
+Lemma rec_ex_with_line r x s :
+  single_ex (r_line r) = true -> is_ex (hd TRule (r_line r)) = false ->
+  inZ s (rec_ex (with_line r (add_exdate (r_line r) x))) = inZ s (rec_ex r) || (s =? parse_exd x).
+Proof.
+  intros H1 Hh. unfold rec_ex, with_line. cbn [r_line r_extra].
+  fold (ex_of_line (add_exdate (r_line r) x)). fold (ex_of_line (r_line r)).
+  rewrite !map_app, !inZ_app, (add_exdate_excludes _ _ _ H1 Hh).
+  destruct (inZ s (map parse_exd (ex_of_line (r_line r)))); destruct (inZ s (map parse_exd (r_extra r)));
+    destruct (s =? parse_exd x); reflexivity.
+Qed.
+
+Lemma filter_flat_map {A B} (p : B -> bool) (f : A -> list B) (l : list A) :
+  filter p (flat_map f l) = flat_map (fun a => filter p (f a)) l.
+Proof.
+  induction l as [|a r IH]; simpl; [reflexivity|]. rewrite filter_app, IH. reflexivity.
+Qed.
+
+(* The series after the rewrite of its RRULE line = the series before, minus the occurrence that
+   starts at the excluded instant — for every window, for daily and weekly rules, with or without
+   UNTIL (instant or date) or COUNT, wherever those parts sit in the line. *)
+Theorem instance_removal_exact (b : bstate) (st : sev) (r : srec) (x : exd) (lo hi : option Z) :
+  single_ex (r_line r) = true -> is_ex (hd TRule (r_line r)) = false ->
+  instances b st (with_line r (add_exdate (r_line r) x)) lo hi =
+  filter (fun w => negb (w_s w =? parse_exd x)) (instances b st r lo hi).
+Proof.
+  intros H1 Hh. unfold instances.
+  destruct (bounds_kept r x) as (Hc & Ht & Hd). rewrite Hc, Ht, Hd.
+  cbn [with_line r_weekly r_interval r_byday].
+  cbv zeta. rewrite filter_flat_map. apply flat_map_ext. intros [d k]. cbn [fst snd].
+  rewrite (rec_ex_with_line r x _ H1 Hh).
+  match goal with |- (if ?c then _ else _) = _ => destruct c end; [|reflexivity].
+  match goal with |- context [inZ ?s (rec_ex r)] => destruct (inZ s (rec_ex r)) end; [reflexivity|].
+  cbn [orb].
+  match goal with |- context [in_window ?a ?b ?c ?e] => destruct (in_window a b c e) end.
+  - cbn [filter w_s]. match goal with |- context [?s =? parse_exd x] => destruct (s =? parse_exd x) end; reflexivity.
+  - match goal with |- context [?s =? parse_exd x] => destruct (s =? parse_exd x) end; reflexivity.
+Qed.
+
+(* non-vacuity: FREQ=WEEKLY;UNTIL=20250127T100000Z;EXDATE:20250113T100000Z satisfies the hypotheses;
+   and the restriction to one EXDATE part is needed: with two parts the rewrite keeps the first
+   part only (re.search finds one part, re.sub deletes them all), so the exclusions of the
+   second part come back *)
+Example instance_removal_hyps :
+  let l := [TRule; TUntil (2025, 1, 27, 10, 0, 0); TEx [(2025, 1, 13, 10, 0, 0)]] in
+  single_ex l = true /\ is_ex (hd TRule l) = false.
+Proof. split; reflexivity. Qed.
+Example two_exdate_parts_refuted :
+  let l := [TRule; TEx [(2025, 1, 13, 10, 0, 0)]; TEx [(2025, 1, 20, 10, 0, 0)]] in
+  ex_of_line (add_exdate l (2025, 1, 27, 10, 0, 0)) = [(2025, 1, 13, 10, 0, 0); (2025, 1, 27, 10, 0, 0)].
+Proof. vm_compute. reflexivity. Qed.
+
+(* _format_exdate then parsing the text back gives the instant, for every instant *)
+Lemma parse_format_exdate t : parse_exd (format_exdate t) = t.
+Proof.
+  unfold format_exdate, parse_exd.
+  pose proof (civil_roundtrip (t / DAY)) as H.
+  destruct (civil_from_days (t / DAY)) as [[y m] d]. destruct H as [H _]. rewrite H.
+  unfold DAY, HOUR in *. lia.
+Qed.
+
+(* what a reader can see of a row *)
+Definition row_obs (w : row) := (w_id w, w_rid w, w_s w, w_e w, w_k0 w, w_k1 w).
+Definition set_rec (st : sev) (rc : option srec) : sev :=
+  mkSev (s_id st) (s_sum st) (s_desc st) (s_tz st) (s_rem st) (s_defrem st) (s_allday st) (s_s st) (s_e st)
+        (s_pres st) rc.
+
+Lemma map_flat_map {A B C} (g : B -> C) (f : A -> list B) (l : list A) :
+  map g (flat_map f l) = flat_map (fun a => map g (f a)) l.
+Proof. induction l as [|a r IH]; simpl; [reflexivity|]. rewrite map_app, IH. reflexivity. Qed.
+
+Lemma instances_cong b b' st rc r lo hi :
+  bs_zone b' = bs_zone b ->
+  map row_obs (instances b' (set_rec st rc) r lo hi) = map row_obs (instances b st r lo hi).
+Proof.
+  intro Hz. unfold instances, ev_zone, set_rec. cbn [s_tz s_e s_s s_allday s_id]. rewrite Hz.
+  cbv zeta. rewrite !map_flat_map. apply flat_map_ext. intros [d k]. cbn [fst snd].
+  match goal with |- map _ (if ?c then _ else _) = _ => destruct c end; [|reflexivity].
+  match goal with |- context [inZ ?s (rec_ex r)] => destruct (inZ s (rec_ex r)) end; [reflexivity|].
+  match goal with |- context [in_window ?a ?b ?c ?e] => destruct (in_window a b c e) end; reflexivity.
+Qed.
+
+Lemma instances_not_excluded b st r lo hi w :
+  In w (instances b st r lo hi) -> inZ (w_s w) (rec_ex r) = false.
+Proof.
+  unfold instances. cbv zeta. intro H. apply in_flat_map in H. destruct H as [[d k] [_ H]]. cbn [fst snd] in H.
+  match type of H with In _ (if ?c then _ else _) => destruct c end; [|contradiction].
+  match type of H with context [inZ ?s (rec_ex r)] => destruct (inZ s (rec_ex r)) eqn:E end; [contradiction|].
+  match type of H with context [in_window ?a ?b ?c ?e] => destruct (in_window a b c e) end; [|contradiction].
+  destruct H as [<-|[]]. exact E.
+Qed.
+
+Lemma filter_all {A} (p : A -> bool) (l : list A) : (forall x, In x l -> p x = true) -> filter p l = l.
+Proof.
+  induction l as [|x r IH]; simpl; intro H; [reflexivity|].
+  rewrite (H x (or_introl eq_refl)), IH; [reflexivity|]. intros y Hy. apply H. right; exact Hy.
+Qed.
+
+Lemma find_upd_rec m rc : forall l st, find_ev m l = Some st -> find_ev m (upd_rec m rc l) = Some (set_rec st rc).
+Proof.
+  induction l as [|y r IH]; intros st H; [discriminate|]. cbn [find_ev upd_rec] in *.
+  destruct (match s_id y with Some k => N.eqb k m | None => false end) eqn:E.
+  - injection H as <-. cbn [find_ev s_id]. rewrite E. reflexivity.
+  - cbn [find_ev]. rewrite E. apply IH. exact H.
+Qed.
+
+Lemma tick_keeps b : bs_zone (fst (tick b)) = bs_zone b /\ bs_store (fst (tick b)) = bs_store b.
+Proof. split; reflexivity. Qed.
+
+(* Calendar.remove(<one instance of series m>) that reports success: afterwards the backend holds
+   the series of m as before minus exactly the occurrence starting where the instance starts — in
+   every window, bounded rules included (the last occurrence of a series ending with UNTIL=<its
+   start> too), and also when the occurrence was excluded already (nothing is written then). *)
+Theorem remove_instance_exact (a a' : astate) (ev : aev) (m : N) (st : sev) (r : srec) :
+  find_ev m (bs_store (a_b a)) = Some st -> s_rec st = Some r ->
+  single_ex (r_line r) = true -> is_ex (hd TRule (r_line r)) = false ->
+  remove_instance a ev m = (a', [(true, None)]) ->
+  exists st' r',
+    find_ev m (bs_store (a_b a')) = Some st' /\ s_rec st' = Some r' /\
+    rule_toks (r_line r') = rule_toks (r_line r) /\
+    forall lo hi, map row_obs (instances (a_b a') st' r' lo hi) =
+                  map row_obs (filter (fun w => negb (w_s w =? e_s ev)) (instances (a_b a) st r lo hi)).
+Proof.
+  intros Hf Hr H1 Hh H. unfold remove_instance in H.
+  destruct (tick (a_b a)) as [b1 ok1] eqn:T1.
+  assert (Hb1 : bs_zone b1 = bs_zone (a_b a) /\ bs_store b1 = bs_store (a_b a)).
+  { pose proof (tick_keeps (a_b a)) as K. rewrite T1 in K. exact K. }
+  destruct Hb1 as [Z1 S1].
+  destruct ok1; cbn [negb] in H; cbv iota in H; [|discriminate].
+  rewrite S1, Hf, Hr in H.
+  destruct (parse_exdates (r_line r)) as [base existing] eqn:Hp.
+  destruct (in_exd (format_exdate (e_s ev)) existing) eqn:Hin.
+  - (* excluded already: nothing is written *)
+    injection H as <-. cbn [a_b with_b]. exists st, r. rewrite S1.
+    split; [exact Hf|]. split; [exact Hr|]. split; [reflexivity|]. intros lo hi.
+    assert (Hex : inZ (e_s ev) (rec_ex r) = true).
+    { assert (He : existing = ex_of_line (r_line r)).
+      { unfold parse_exdates in Hp. destruct (has_ex (r_line r)) eqn:Hx.
+        - injection Hp as _ <-. symmetry. apply single_ex_first. exact H1.
+        - injection Hp as _ <-. symmetry. rewrite single_ex_first by exact H1.
+          clear -Hx. unfold has_ex in Hx. induction (r_line r) as [|t l IH]; [reflexivity|].
+          destruct t; simpl in *; try (apply IH; exact Hx); discriminate. }
+      apply in_exd_inZ in Hin. rewrite parse_format_exdate in Hin. subst existing.
+      unfold rec_ex. fold (ex_of_line (r_line r)). rewrite map_app, inZ_app, Hin. reflexivity. }
+    rewrite filter_all.
+    + pose proof (instances_cong (a_b a) b1 st (s_rec st) r lo hi Z1) as C.
+      replace (set_rec st (s_rec st)) with st in C by (destruct st; reflexivity). exact C.
+    + intros w Hw. apply instances_not_excluded in Hw.
+      destruct (Z.eqb_spec (w_s w) (e_s ev)) as [E|_]; [|reflexivity].
+      rewrite E, Hex in Hw. discriminate.
+  - destruct (tick b1) as [b2 ok2] eqn:T2.
+    assert (Hb2 : bs_zone b2 = bs_zone b1 /\ bs_store b2 = bs_store b1).
+    { pose proof (tick_keeps b1) as K. rewrite T2 in K. exact K. }
+    destruct Hb2 as [Z2 S2].
+    destruct ok2; cbn [negb] in H; cbv iota in H; [|discriminate].
+    injection H as <-. cbn [a_b with_b set_store bs_store bs_zone].
+    set (r' := mkR (r_weekly r) (r_interval r) (r_byday r) (add_exdate (r_line r) (format_exdate (e_s ev))) (r_extra r)).
+    exists (set_rec st (Some r')), r'.
+    split; [rewrite S2, S1; apply find_upd_rec; exact Hf|]. split; [reflexivity|].
+    split; [apply add_exdate_rule_toks|]. intros lo hi.
+    rewrite (instances_cong (a_b a) _ st (Some r') r' lo hi) by (simpl; congruence).
+    change r' with (with_line r (add_exdate (r_line r) (format_exdate (e_s ev)))).
+    rewrite (instance_removal_exact _ _ _ _ _ _ H1 Hh), parse_format_exdate. reflexivity.
+Qed.
+
+(* the scenario itself, computed: FREQ=WEEKLY;UNTIL=20250127T100000Z from Monday 2025-01-06 10:00Z has
+   four occurrences, the last one starting AT the UNTIL instant; removing that one takes the two
+   backend calls (get_event, update_event), succeeds, and leaves the other three *)
+Example until_last_occurrence_removed :
+  let mon := 1736157600 in
+  let r := mkR true 1 [] [TRule; TUntil (2025, 1, 27, 10, 0, 0)] [] in
+  let st := mkSev (Some 1%N) (Some 1%N) None (Some utc_zone) [] false false mon (Some (mon + HOUR)) KZone (Some r) in
+  let a := init utc_zone [st] 2%N [] in
+  let last := mon + 21 * DAY in
+  let ev := mkE (EInst 1%N last) 1%N None (Some 1%N) false None last (last + HOUR) in
+  let res := remove_instance a ev 1%N in
+  map w_s (rows_of (a_b a) None (Some (mon + 60 * DAY))) = [mon; mon + 7 * DAY; mon + 14 * DAY; last] /\
+  snd res = [(true, None)] /\ bs_calls (a_b (fst res)) = 2%nat /\
+  map w_s (rows_of (a_b (fst res)) None (Some (mon + 60 * DAY))) = [mon; mon + 7 * DAY; mon + 14 * DAY] /\
+  single_ex (r_line r) = true /\ is_ex (hd TRule (r_line r)) = false.
+Proof. vm_compute. repeat split; reflexivity. Qed.
